@@ -239,14 +239,14 @@ def categorize(diffs, p, da, db):
     both = {"packages": dict(da.get("packages", {}))}
     both["packages"].update(db.get("packages", {}))
     scriptless = set(k for d in (da, db) for k, v in d.get("packages", {}).items() if not v["build"]["valid"])
-    # dependencies that only one side has, below a package with a script-less build step
+    # dependencies of a package with a script-less build step that only one side has, or that are another variant
     surplus = set()
     for q in scriptless:
         if q in da.get("packages", {}) and q in db.get("packages", {}):
             for f in ("direct", "indirect"):
-                na = set(x[0] for x in da["packages"][q][f])
-                nb = set(x[0] for x in db["packages"][q][f])
-                surplus |= na ^ nb
+                na = {x[0]: x[2] for x in da["packages"][q][f]}
+                nb = {x[0]: x[2] for x in db["packages"][q][f]}
+                surplus |= set(k for k in set(na) | set(nb) if na.get(k) != nb.get(k))
     cats = {}
     for d in diffs:
         path = d[0]
@@ -259,9 +259,8 @@ def categorize(diffs, p, da, db):
             extra = set(la) ^ set(lb)
             if extra and all(any(x == s or x.startswith(s + "/") for s in surplus) for x in extra):
                 cat = "scriptless-deps"
-        elif pkg is not None and any(pkg == s or pkg.startswith(s + "/") for s in surplus) and \
-                (pkg not in da.get("packages", {}) or pkg not in db.get("packages", {})):
-            cat = "scriptless-deps"              # a package that hangs on a surplus dependency
+        elif pkg is not None and any(pkg == s or pkg.startswith(s + "/") for s in surplus):
+            cat = "scriptless-deps"              # a package that hangs on a surplus / differing dependency
         elif pkg is not None and field.split("/")[0] == "meta":
             cat = "meta"
         elif pkg is not None and field.endswith("/fp"):
